@@ -220,7 +220,7 @@ class Contenders(Job):
 
     def __init__(self, sender, ncont, steps, relay, listener):
         self.sender, self.ncont, self.steps, self.relay, self.listener = sender, ncont, steps, relay, listener
-        self.name = "contend_%s_n%d_k%d%s%s" % ("sender" if sender else "receiver", ncont, steps, "_relay" if relay else "", "_listen" if listener else "")
+        self.name = "contend_%s_n%d_k%d%s%s" % ("sender" if sender else "receiver", ncont, steps, ("_relay%s" % (relay if relay is not True else "")) if relay else "", "_listen" if listener else "")
         self.bounds = dict(role="sender" if sender else "receiver", outbound_contenders=ncont, relay_contender=relay, inbound_listener=listener,
                            schedule_steps=steps, inbound_bytes="symbolic, exact expected length per contender (solver decides match/mismatch at any byte)")
         self.must_reach = ("nt:winner", "nt:failed")
@@ -249,6 +249,7 @@ class Contenders(Job):
 
                     def stopListening(p):
                         Port.stopped += 1
+                        listener_f.clear()      # a stopped port accepts no further connections
                 s.port = Port()
                 return defer.succeed(s.port)
 
@@ -261,7 +262,9 @@ class Contenders(Job):
         with loader.shadow(*sh), (shadows() if symbolic else loader.shadow((T, "log", LogRec()))):
             hints = [{"type": "direct-tcp-v1", "hostname": "h%d" % i, "port": 1000 + i, "priority": 0.0} for i in range(self.ncont)]
             if self.relay:
-                hints.append({"type": "relay-v1", "hints": [{"type": "direct-tcp-v1", "hostname": "relay", "port": 2000, "priority": 1.0}]})
+                # relay == 2: two different relays with the same priority (each side configured its own relay)
+                for r in range(2 if self.relay == 2 else 1):
+                    hints.append({"type": "relay-v1", "hints": [{"type": "direct-tcp-v1", "hostname": "relay%d" % r, "port": 2000 + r, "priority": 1.0}]})
             o.add_connection_hints(hints)
             o.get_connection_hints()   # API order used by every caller in the repo: hints are produced before connect()
             o.set_transit_key(KEY)
@@ -419,6 +422,12 @@ class Contenders(Job):
                             check(e["c"].transport.lost > 0 or e["lost"], "a losing contender was left open")
         if final:
             check(bool(result), "connect() still pending after every timer (incl. 2*TIMEOUT) expired")
+            # the confirmed link is what connect() returns: a connection that was told go (sender) / saw handshake+go (receiver)
+            # and is in 'records' must be the result of connect()
+            for e in in_records:
+                if not e["lost"]:
+                    check(bool(result) and result[0][0] == "ok" and result[0][1] is e["c"],
+                          "a connection was confirmed (go) but connect() did not return it")
 
     def replay(self, inp, label):
         script = dict(inp)
@@ -439,6 +448,9 @@ class Contenders(Job):
                 return "connection selected/confirmed with inbound %r, expected %r (schedule %r)" % (e["x"][:n], e["exp"], r["sched"])
         if not result:
             return "connect() still pending after all timers expired (schedule %r)" % (r["sched"],)
+        for e in recs:
+            if not e["lost"] and not (result[0][0] == "ok" and result[0][1] is e["c"]):
+                return "a connection was confirmed (go) and is in 'records' but connect() gave %r (schedule %r)" % (result[0][:1] + (getattr(result[0][1], "__class__", type(None)).__name__,), r["sched"])
         if result[0][0] == "ok":
             w = result[0][1]
             for e in conns:
@@ -462,6 +474,7 @@ def jobs(tier):
     for sender in (True, False):
         J.append(Contenders(sender, 2, k, False, False))
         J.append(Contenders(sender, 1, k, True, False))
+        J.append(Contenders(sender, 0, k + 1, 2, False))
         J.append(Contenders(sender, 1, k, False, True))
         if thorough:
             J.append(Contenders(sender, 2, k - 1, True, True))
